@@ -951,13 +951,18 @@ impl AstNode for UtxoRef {
     fn parse(pair: Pair<Rule>) -> Result<Self, Error> {
         let span = pair.as_span().into();
         let raw_ref = pair.as_span().as_str()[2..].to_string();
-        let (raw_txid, raw_output_ix) = raw_ref.split_once("#").expect("Invalid utxo ref");
+        let (raw_txid, raw_output_ix) = raw_ref
+            .split_once("#")
+            .ok_or_else(|| Error::custom("invalid utxo ref", pair.as_span()))?;
 
-        Ok(UtxoRef {
-            txid: hex::decode(raw_txid).expect("Invalid hex txid"),
-            index: raw_output_ix.parse().expect("Invalid output index"),
-            span,
-        })
+        let txid = hex::decode(raw_txid)
+            .map_err(|_| Error::custom("invalid hex in utxo ref txid", pair.as_span()))?;
+
+        let index = raw_output_ix
+            .parse()
+            .map_err(|_| Error::custom("invalid utxo ref output index", pair.as_span()))?;
+
+        Ok(UtxoRef { txid, index, span })
     }
 
     fn span(&self) -> &Span {
